@@ -11,7 +11,7 @@ Traces == Data.traces
 NT     == Len(Traces)
 
 VARIABLES tid, l
-tvars == <<lines, eols, pl, pe, edit, tid, l>>
+tvars == <<lines, eols, pl, pe, edit, disk, nstep, tid, l>>
 
 ASSUME TLCSet(1, [t \in 1..NT |-> 0])
 
@@ -19,6 +19,7 @@ TInit == /\ tid \in 1..NT
          /\ l = 1
          /\ lines = Traces[tid].init
          /\ eols = <<>> /\ pl = <<>> /\ pe = <<>> /\ edit = [k |-> "open"]
+         /\ disk = [tl |-> <<>>, te |-> <<>>] /\ nstep = 0
 
 LensOf(L) == [i \in 1..Len(L) |-> Len(L[i])]
 
@@ -34,7 +35,7 @@ TNext == /\ l <= Len(Traces[tid].events)
             /\ IF e.k = "full" THEN TRUE
                ELSE SubSeq(lines', e.sl + 1, e.sl + Len(e.tl)) = e.post_touch
          /\ l' = l + 1
-         /\ UNCHANGED <<tid, eols, pl, pe, edit>>
+         /\ UNCHANGED <<tid, eols, pl, pe, edit, disk, nstep>>
 
 TSpec == TInit /\ [][TNext]_tvars
 
